@@ -411,7 +411,7 @@ def worker_seed(seed, w):
 
 
 def hyp_settings(max_examples, shrink=False, stateful_steps=None):
-    from hypothesis import HealthCheck, Phase, settings
+    from hypothesis import HealthCheck, Phase, Verbosity, settings
 
     kw = dict(
         max_examples=max_examples,
@@ -422,6 +422,7 @@ def hyp_settings(max_examples, shrink=False, stateful_steps=None):
         suppress_health_check=list(HealthCheck),
         phases=[Phase.generate, Phase.shrink] if shrink else [Phase.generate],
         print_blob=False,
+        verbosity=Verbosity.quiet,
     )
     if stateful_steps is not None:
         kw["stateful_step_count"] = stateful_steps
@@ -477,3 +478,45 @@ def minimize(strategy, still_fails, seed, max_examples, seconds=30):
     except Exception:
         pass
     return box.get("v")
+
+
+class Mismatch(Exception):
+    """Raised inside a Hypothesis test / state machine when the oracle disagrees; carries a Failure.
+    The machine should put its (JSON-able) operation list into failure.case so that the shrunk
+    history can be replayed without Hypothesis."""
+
+    def __init__(self, failure: Failure):
+        super().__init__("%s: %s" % (failure.kind, _oneline(failure.detail)))
+        self.failure = failure
+
+
+def run_machine(machine_cls, seed, max_examples, step_count, shrink=True, shrink_seconds=60):
+    """Run a RuleBasedStateMachine under a pinned seed.  Returns None when every generated history
+    passed, else the exception of the (shrunk) failing history - normally a Mismatch."""
+    import hypothesis
+    from hypothesis.stateful import run_state_machine_as_test
+
+    limit_shrink_seconds(shrink_seconds)
+    cls = type(machine_cls.__name__ + "_s%d" % (seed % 1000003), (machine_cls,), {})
+    try:
+        run_state_machine_as_test(
+            hypothesis.seed(seed)(cls),
+            settings=hyp_settings(max_examples, shrink=shrink, stateful_steps=step_count))
+    except Mismatch as e:
+        return e
+    except BaseException as e:  # noqa: BLE001
+        if isinstance(e, (KeyboardInterrupt, SystemExit)):
+            raise
+        return e
+    return None
+
+
+def machine_failure(exc, what="state machine"):
+    """Turn run_machine()'s return value into a Failure (or raise HarnessError for the unexpected)."""
+    if exc is None:
+        return None
+    if isinstance(exc, Mismatch):
+        return exc.failure
+    raise HarnessError("%s raised an exception that is not an oracle mismatch (convert exceptions of the "
+                       "code under test into Mismatch inside the rule): %s" % (
+                           what, "".join(traceback.format_exception(type(exc), exc, exc.__traceback__))[-3000:]))
